@@ -100,7 +100,7 @@ def make_world(rng):
         binmeta[f"{d_in}b{j}.o"] = meta
     # the same contents under names that say nothing (or the wrong thing) about their type
     if listings and rng.random() < 0.5:
-        nm = d_in + rng.choice(["dump.o", "50%_listing.txt", "UPPER.ASM", "l;st$ing.s"])
+        nm = rng.choice([d_in + "dump.o", d_in + "50%_listing.txt", d_in + "UPPER.ASM", d_in + "l;st$ing.s", "-", "-"])  # "-" is a file name like any other
         files[nm] = files[listings[0]]
         listings.append(nm)
     if binaries and rng.random() < 0.5:
@@ -525,6 +525,15 @@ def make_history(rng, world, with_faults):
     # histories end in a checked successful-looking operation of the focus family
     e = rng.choice(byfam[focus])
     ops.append(_match_op(rng, e, listings, binaries, mode=focus_mode))
+    style = rng.random()
+    if style < 0.15:
+        for o in ops:  # the caller keeps ONE MatchConfig object and updates its fields per operation
+            if o["op"] == "match" and not o.get("reuse_config"):
+                o["shared_config"] = True
+    if rng.random() < 0.3:
+        for o in ops:  # the caller passes the very same list object of macro libraries to every operation
+            if o["op"] == "match":
+                o["shared_macro_list"] = True
     return ops
 
 
